@@ -36,6 +36,16 @@ class Program:
         self.impls = self.d["impls"]
         self.implements = {m["trait"]: set(m["implementors"]) for m in self.d["implements"]}
         self.trait_by_name = {m["name"]: m["trait"] for m in self.d["implements"]}
+        self.key_to_path = {}
+        for f in self.d["fns"]:
+            if f["kind"] == "Closure":
+                continue
+            if "impl_trait" in f or "trait_default_of" in f:
+                continue
+            if "impl_self" in f and f["impl_self"]["k"] == "adt":
+                self.key_to_path[f["impl_self"]["path"] + "::" + f["name"]] = f["path"]
+            elif "impl_self" not in f:
+                self.key_to_path[f["path"]] = f["path"]
         self.children = {}
         for f in self.d["fns"]:
             if "parent" in f:
